@@ -7,6 +7,7 @@
 mod exec;
 mod gen;
 mod mp;
+mod sweeps;
 mod typed;
 mod util;
 
